@@ -2,7 +2,8 @@
 # confirm_mutant.sh <id> <mK>: confirm a sub-agent's mutant in its scratch worktree:
 #   patch applies, library builds, existing suite passes, demo fails with the patch and passes without it.
 id=$1; k=$2
-wt=/tmp/wt/$id; out=/tmp/wt-out/$id/$k
+wt=${WT:-/tmp/wt}/$id; outbase=${OUT:-/tmp/wt-out}; out=$outbase/$id/$k
+tags=""; grep -q -- "-tags verif" $out/NOTES.md 2>/dev/null && tags="-tags verif"
 export GOFLAGS=-mod=mod GOPROXY=off GOSUMDB=off GOTOOLCHAIN=local
 cd $wt || exit 2
 git checkout -q -- . ; git clean -fdq
@@ -10,14 +11,14 @@ git checkout -q -- . ; git clean -fdq
 git apply --check $out/patch.diff 2>/dev/null || { echo "$id/$k PATCH-DOES-NOT-APPLY"; exit 2; }
 git apply $out/patch.diff
 b=ok; go build ./... >/dev/null 2>&1 || b=BUILD-FAILS
-t=ok; go test -vet=off -count=1 ./... >/tmp/wt-out/$id/$k.suite.log 2>&1 || t=SUITE-FAILS
+t=ok; go test -vet=off -count=1 ./... >$outbase/$id/$k.suite.log 2>&1 || t=SUITE-FAILS
 demo=$out/demo
 d1=?; d2=?
 if [ -d $demo ]; then
-  if ls $demo/*_test.go >/dev/null 2>&1; then cmd="go test -count=1 ./..."; else cmd="go run ."; fi
-  (cd $demo && timeout 300 $cmd >/tmp/wt-out/$id/$k.demo_mut.log 2>&1) && d1=PASSES-WITH-PATCH || d1=fails-with-patch
+  if ls $demo/*_test.go >/dev/null 2>&1; then cmd="go test $tags -count=1 ./..."; else cmd="go run ."; fi
+  (cd $demo && timeout 300 $cmd >$outbase/$id/$k.demo_mut.log 2>&1) && d1=PASSES-WITH-PATCH || d1=fails-with-patch
   git checkout -q -- . ; git clean -fdq
-  (cd $demo && timeout 300 $cmd >/tmp/wt-out/$id/$k.demo_clean.log 2>&1) && d2=passes-clean || d2=FAILS-CLEAN
+  (cd $demo && timeout 300 $cmd >$outbase/$id/$k.demo_clean.log 2>&1) && d2=passes-clean || d2=FAILS-CLEAN
 fi
 git checkout -q -- . ; git clean -fdq
 echo "$id/$k build=$b suite=$t demo:$d1,$d2 files=$(grep -c '^diff --git' $out/patch.diff)"
